@@ -568,6 +568,9 @@ pub fn oracle_c09_c10(op: &str, outs: &[String], check_c09: bool, check_c10: boo
         }
     }
     if check_c10 && !fixed {
+        if let Some(f) = newchannel_resets_pairing(region, &evs, outs, &snaps) {
+            return f;
+        }
         if let Some(f) = dlchannel_pairing(region, &evs, outs, &snaps) {
             return f;
         }
@@ -662,6 +665,84 @@ fn dlchannel_pairing(_region: &str, evs: &[String], outs: &[String], snaps: &[Op
                     }
                 }
                 None => return Some(format!("FAIL:dlchannel-acknowledged-for-undefined-channel-{}", idx)),
+            }
+        }
+    }
+    None
+}
+
+/// NewChannelReq creates or MODIFIES a channel; the RX1 downlink frequency of a newly defined or
+/// modified channel equals its uplink frequency (LoRaWAN 1.0.4 §5.6; a pairing made earlier by
+/// DlChannelReq does not survive the re-definition). When an accepted Class A downlink carries only
+/// NewChannelReq commands and the next uplink acknowledges one with both status bits, the next
+/// snapshot shows the channel at the requested frequency with RX1 on that same frequency.
+fn newchannel_resets_pairing(_region: &str, evs: &[String], outs: &[String], snaps: &[Option<Snap>]) -> Option<String> {
+    for (i, (ev, out)) in evs.iter().zip(outs.iter()).enumerate() {
+        let w: Vec<&str> = ev.split_whitespace().collect();
+        if w.len() < 11 || !(w[0] == "rx1" || w[0] == "rx2") || w[3] != "d" {
+            continue;
+        }
+        if !out.contains("DownlinkReceived") {
+            continue;
+        }
+        let fopts = if w[8] == "-" { vec![] } else { unhex(w[8]) };
+        let payload = if w[10] == "-" { vec![] } else { unhex(w[10]) };
+        let cmds_bytes = if w[9] == "0" { payload } else { fopts };
+        let (cmds, whole) = split_cmds(&cmds_bytes, down_len);
+        if !whole || cmds.is_empty() || cmds.len() > 3 || cmds.iter().any(|(c, _)| *c != 0x07) {
+            continue;
+        }
+        let mut ans: Option<Vec<(u8, Vec<u8>)>> = None;
+        let mut snap: Option<Snap> = None;
+        for j in i + 1..evs.len() {
+            let w0 = evs[j].split_whitespace().next().unwrap_or("");
+            if w0 == "snap" && snap.is_none() {
+                snap = snaps[j].clone();
+            }
+            if w0 == "send" {
+                if let Some(up) = parse_tx(&outs[j]).and_then(|t| t.up) {
+                    let (a, ok) = split_cmds(&up.fopts, up_len);
+                    if ok {
+                        ans = Some(a);
+                    }
+                }
+                break;
+            }
+            if w0 != "snap" {
+                break;
+            }
+        }
+        let (ans, snap) = match (ans, snap) {
+            (Some(a), Some(s)) => (a, s),
+            _ => continue,
+        };
+        let nc_ans: Vec<u8> = ans.iter().filter(|(c, _)| *c == 0x07).map(|(_, p)| p[0]).collect();
+        if nc_ans.len() != cmds.len() {
+            continue;
+        }
+        for (k, (_, p)) in cmds.iter().enumerate() {
+            let idx = p[0] as usize;
+            if cmds[k + 1..].iter().any(|(_, q)| q[0] as usize == idx) {
+                continue;
+            }
+            if nc_ans[k] & 3 != 3 {
+                continue;
+            }
+            let f = freq_of(&p[1..4]);
+            if f == 0 {
+                continue; // removal
+            }
+            match snap.chans.get(idx).cloned().flatten() {
+                Some(c) => {
+                    if c.freq != f {
+                        return Some(format!("FAIL:newchannel-{}-acknowledged-for-channel-{}-but-frequency-is-{}", f, idx, c.freq));
+                    }
+                    let rx1 = c.dl.unwrap_or(c.freq);
+                    if rx1 != f {
+                        return Some(format!("FAIL:newchannel-{}-acknowledged-for-channel-{}-but-rx1-frequency-is-still-{}", f, idx, rx1));
+                    }
+                }
+                None => return Some(format!("FAIL:newchannel-acknowledged-but-channel-{}-undefined", idx)),
             }
         }
     }
@@ -992,9 +1073,16 @@ pub fn eval_c20_doc(op: &str) -> String {
                 let devaddr = u32::from_le_bytes(snap.session.as_ref().unwrap().devaddr);
                 let nwk = snap.session.as_ref().unwrap().nwkskey;
                 let app = snap.session.as_ref().unwrap().appskey;
-                for k in 0..3u32 {
+                // first an uplink whose windows both time out (counters as restored, nothing reset
+                // by a downlink), then uplinks answered by an authentic downlink
+                for k in 0..4u32 {
                     rng.refill();
                     let tx = mac.send(&mut rng, &[1, 2, 3], 1 + k as u8, k == 1);
+                    if k == 0 {
+                        let _ = mac.rx2_complete();
+                        let _ = mac.snapshot();
+                        continue;
+                    }
                     if let Ok((t, _)) = &tx {
                         let mut d = DownDesc::new(devaddr, snap.session.as_ref().unwrap().fcnt_down.unwrap_or(0).wrapping_add(1 + k));
                         d.nwk = nwk;
